@@ -15,7 +15,7 @@ Stage 3 (direct search, model free): main object byte-identical to before or equ
   result (inventories as JSON modulo `created` and the HashSet-order dedup choice, sidecars
   consistent, content by hash) and accepted by ocflv.py and `rocfl validate`; exit status 0 only if
   new; an error before the install rename leaves old; retry succeeds with the fault-free result,
-  reset succeeds; known finding classes are counted, not reported.
+  reset succeeds.  No known finding class is left for C04: every position is must-pass.
 """
 import concurrent.futures
 import json
@@ -25,7 +25,6 @@ from vplib import common
 from vplib import commitlib as cl
 from vplib import strace as st
 
-KNOWN_SLUGS = {1: "upgrade-declaration-fault"}
 
 
 def judge(o):
@@ -43,20 +42,6 @@ def judge(o):
     return out
 
 
-def direct_known(o):
-    """known-finding class of a run whose failed call has no counterpart in the recording (the dedup clean-up differs
-    from run to run): read off the call that was hit, as the classifiers of Model/KnownC04.v do on the model side"""
-    hit = o["hit"]
-    if not hit or o["kind"] != "F":
-        return 0
-    p = hit[1]
-    base = os.path.basename(p)
-    staged = "/rocfl-staging/" in p or p.startswith("~/stg/")
-    if base.startswith("0=ocfl_object_") and hit[0] in ("createnew", "write", "unlink") and not staged:
-        return 1
-    return 0
-
-
 def case_input(o):
     return {"scenario": o["scn"], "inject": "F" if o["kind"] == "R" else o["kind"], "non_mutating_call": bool(o.get("read")),
             "errno_or_signal": o["what"], "point": o["point"], "set": o["set"],
@@ -70,23 +55,21 @@ def evaluate(ctx, recs, outs, env, stats):
         n = len(r.steps)
         injs = [("F", i) for i in range(n)] + [("S", i) for i in range(n)] + [("R", i) for i in range(n)]
         terms.append(cl.report_term(r, injs))
-        terms.append(cl.known_term(r, list(range(n))))
         terms.append(cl.follow_term(r, list(range(n))))
         terms.append(cl.pre_term(r))
     vals = common.coq_eval("c04", cl.IMPORTS, terms, batch=1)
     pred = {}
     for k, r in enumerate(recs):
-        rep = cl.parse_coq(vals[4 * k])
-        known = cl.parse_coq(vals[4 * k + 1])
-        follow = cl.parse_coq(vals[4 * k + 2])
-        pre = cl.parse_coq(vals[4 * k + 3])
+        rep = cl.parse_coq(vals[3 * k])
+        follow = cl.parse_coq(vals[3 * k + 1])
+        pre = cl.parse_coq(vals[3 * k + 2])
         stats["hypotheses_%s" % r.scn.kind] = "commit_pre=%s same_type=%s" % (pre[0], pre[1])
         if not r.scn.is_upgrade and not (pre[0] and pre[1]):
             common.corr_break(ctx, "Corr.CheckCommit.pre_check (the hypotheses commit_pre / same_type of the C04 / C05 theorems hold on the abstracted real pre-state)",
                               {"input": {"scenario": r.scn.name}, "commit_pre_b": pre[0], "same_type_b": pre[1]})
         n = len(r.steps)
         pred[id(r)] = {"perm": rep[0], "trace": rep[1], "final": rep[2], "align": rep[3],
-                       "F": rep[4][:n], "S": rep[4][n:2 * n], "R": rep[4][2 * n:], "known": known, "follow": follow}
+                       "F": rep[4][:n], "S": rep[4][n:2 * n], "R": rep[4][2 * n:], "follow": follow}
         inp = {"scenario": r.scn.name, "command": r.scn.final("<w>")}
         ctx.count(("rec", r.scn.name, r.set), nontrivial=True,
                   sample={"scenario": r.scn.name, "calls": n, "model_log_covers": rep[0], "trace_equal": rep[1], "final_tree_equal": rep[2]})
@@ -101,7 +84,6 @@ def evaluate(ctx, recs, outs, env, stats):
         if r.errs != [] or r.vrc != 0:
             ctx.violation("impl-violation", {"input": inp, "observed": {"ocflv": r.errs, "rocfl_validate": r.vrc},
                                              "expected": "the fault-free commit yields a valid object"})
-    registered = {k["id"] for k in ctx.known}
     for r, o in outs:
         p = pred[id(r)]
         stats["runs_" + o["kind"]] = stats.get("runs_" + o["kind"], 0) + 1
@@ -117,19 +99,7 @@ def evaluate(ctx, recs, outs, env, stats):
         stats[okey] = stats.get(okey, 0) + 1
         verdict = judge(o)
         midx = o["midx"]
-        # a failed read takes the class of the mutating step it precedes (the read_dir of find_files opens the declaration swap)
-        kc = p["known"][midx] if (midx is not None and o["kind"] in ("F", "R")) else (0 if o["read"] else direct_known(o))
-        ctx.count((o["scn"], o["kind"], o["what"], tuple(o["hit"] or ()), o["cls"], o["rc"] == 0, o["set"]), nontrivial=True,
-                  sample={"input": case_input(o), "rc": o["rc"], "class": o["cls"], "follow": [f[:2] for f in o["follow"]],
-                          "model": (p[o["kind"]][midx] if midx is not None else None)})
         if verdict:
-            tags = {t for t, _ in verdict}
-            allowed = {1: {"state", "status", "reset", "wedged"}}.get(kc, set())
-            slug = KNOWN_SLUGS.get(kc)
-            if slug and tags <= allowed and (not registered or slug in registered):
-                ctx.known_hit(slug)
-                stats["known_" + slug] = stats.get("known_" + slug, 0) + 1
-                continue
             ctx.violation("impl-violation", {"input": case_input(o),
                                              "observed": {"exit_status": o["rc"], "stderr": o["stderr"], "main_object": o["cls"], "detail": o["detail"],
                                                           "afterwards": o["follow"], "retry_detail": o.get("retry_detail")},
